@@ -6,9 +6,22 @@ RESOLVE_TB = [
 RESOLVE_DIRS = ["Parser/Window", "Resolve", "Corr/Resolve", "Corr/Intake", "Corr/MetaOps", "Base"]
 
 
-def resolve_prop(cmd, seed, rule, extra_dirs=(), assumptions=()):
+RESOLVE_NOTE = ("Trusted: Coq 8.16.1 kernel + vm_compute; the correspondence harness; go2v for the translated comparators/filters; "
+                "modelled not verified: the per-operation verdicts of parser/JWS/hash/composer (facts fixed by construction of each "
+                "generated request; those layers have their own properties), sort.Slice/SliceStable (trusted to sort when the comparator "
+                "is a strict weak order - the comparator itself is translated and proved), distinct (time, number) per operation.")
+
+
+def resolve_prop(cmd, seed, rule, level_text, extra_dirs=(), assumptions=()):
     return {"cmd": cmd, "seed": seed, "gentie": 0, "coq_dirs": RESOLVE_DIRS + list(extra_dirs) + ["Props/" + cmd.upper()],
-            "rule": rule, "trusted_base": RESOLVE_TB, "assumptions": list(assumptions)}
+            "rule": rule, "trusted_base": RESOLVE_TB, "assumptions": list(assumptions),
+            "level_text": level_text, "level_note": RESOLVE_NOTE,
+            "technique": "Coq proof over an executable model of processor.Resolve/operationapplier.Apply (induction over chains and "
+                         "histories) + vm_compute correspondence against the real code on generated histories + relational oracle on the code"}
+
+
+NOT_APPLICABLE = []
+HOOK_COMMITS = []
 
 
 PROPS = {
@@ -17,30 +30,39 @@ PROPS = {
         "(other key revealed, forged signature, flipped signature bit, re-encoded payload, reveal/signing-key mismatch) and duplicate "
         "creates (same request, other delta, no delta) interleaved at random anchoring positions; each history is resolved with and "
         "without the extras (metamorphic oracle) and compared with the model; non-trivial = at least one extra; distinct by letter "
-        "sequence and result"),
+        "sequence and result",
+        "Theorems for all histories: unauthorised operations are rejected by Apply in every state; every applied operation is authorised and revealed the commitment in force; dropping any set of unauthorised non-create operations, or of creates other than the chosen one, anywhere in the published/unpublished history leaves (chosen create, state, applied operations) unchanged. Model tied to the code by differential evaluation and a with/without-extras oracle on the implementation."),
     "C02": resolve_prop("c02", 102,
         "histories with competing operations per commitment, duplicate creates and unpublished operations; (time, number) drawn so that "
         "non-monotone pairs and shared times occur; every permutation of the published store for n<=5 (30 random ones above); all orders "
         "must agree (oracle on the implementation) and equal the model; plus metadata published-operation lists for permuted input; "
-        "non-trivial = more than 2 published operations; distinct by letters and store order"),
+        "non-trivial = more than 2 published operations; distinct by letters and store order",
+        "Theorems: resolve is invariant under any permutation of both stores (distinct coordinates); the sorted arrangement is unique whatever the algorithm; the source comparators (re-translated each run) equal time-then-number and published-first, and the stable create sort equals the model's partition; first eligible operation in processing order wins and non-applied operations can be removed without effect; metadata lists are order independent. All-permutation oracle on the implementation for n<=5."),
     "C03": resolve_prop("c03", 103,
         "random histories (length 1-30) over the whole operation alphabet: valid, forked, failing/invalid/mismatching delta, in/out of "
         "window (explicit and default), replayed, cyclic, forged, duplicate creates, unpublished tail; every state field and the returned "
-        "operation lists compared with the model; non-trivial = more than 2 operations; distinct by letter sequence and result"),
+        "operation lists compared with the model; non-trivial = more than 2 operations; distinct by letter sequence and result",
+        "An independent declarative reference machine (Spec.v: step/run/Reach) is proved equivalent to the code-shaped model (soundness, completeness, determinism), with each partial-failure clause as an equation, commitments consumed at most once and termination (fuel = number of operations never exhausted). The model is compared field by field with processor.Resolve on generated histories over the whole alphabet."),
     "C04": resolve_prop("c04", 104,
         "histories ending in a valid deactivate (60%) or containing recovers, extended by 1-6 later operations (forged, validly signed "
         "with earlier keys, creates, replays); extended vs. base result compared (oracle on the implementation), model comparison, and "
         "DocumentHandler.ProcessOperation with the default decorator for every non-create extension of a deactivated DID; "
-        "non-trivial = has an extension"),
+        "non-trivial = has an extension",
+        "Theorems: a deactivated result has empty document and no commitments; once the anchored history deactivates, any later-anchored or unpublished operations leave the result unchanged (core and store level); the decorator refuses; a recover resets the document and only updates unpublished or anchored strictly after the last full operation are applied on top (source filter re-translated and proved equal). Extension oracle and ProcessOperation on the implementation."),
     "C06": resolve_prop("c06", 106,
         "histories x every cut time (each operation time, +-1) and every canonical reference plus an unknown one, store order shuffled; "
-        "Resolve(WithVersionTime/ID) over the full store vs Resolve over the truncated store (oracle on the implementation) and vs the model"),
+        "Resolve(WithVersionTime/ID) over the full store vs Resolve over the truncated store (oracle on the implementation) and vs the model",
+        "Theorems: resolution at version time T equals resolution of the store filtered to time<=T (error before the first operation); at version id V equals resolution of the chronological prefix through V (error when unknown); later-anchored extensions never change either. Source time filter re-translated and proved. Oracle on the implementation: filtered vs truncated store at every cut point."),
     "C12": resolve_prop("c12", 112,
         "histories with a self-loop or a commitment cycle of length 2-5 in the update or recovery chain after 0-3 legitimate updates, "
         "optionally with an escape operation; must terminate (20 s bound) and equal the model; plus Parse(batch=false) over every pairing "
-        "of revealed key and next commitments x both hash algorithms for update, recover and create"),
+        "of revealed key and next commitments x both hash algorithms for update, recover and create",
+        "Theorems: intake acceptance implies next commitment is not that of the revealed key and create/recover commitments differ (and the rule rejects nothing else); an applied operation never commits to the commitment it consumes nor to one consumed earlier in the chain; consumed commitments are pairwise distinct; resolution terminates. Cyclic histories and all key pairings through the real parser."),
     "C05": {
         "cmd": "c05", "seed": 5, "gentie": 0,
+        "level_text": "Window function, default bound (anchorFrom + MaxOperationTimeDelta), inclusiveness, parameter independence and the out-of-window effect per operation type are Coq theorems for all (from, until, anchor, protocol); the window kernels of applier and parser are re-translated from the Go source on every run and proved equal to the model; the boundary sweep ties the rest of the model to the code.",
+        "level_note": RESOLVE_NOTE + " Times below 2^62.",
+        "technique": "Coq proof (window arithmetic, Apply effects) + source-regenerated kernels (go2v/GenTie) + vm_compute correspondence on a boundary sweep + configuration-independence oracle on the code",
         "coq_dirs": ["Parser/Window", "Resolve", "Corr/Resolve", "Corr/Window", "Props/C05", "GenTie/Window"],
         "rule": "signed update/recover/deactivate requests (5 key types) x (anchorFrom, anchorUntil) shapes x anchoring times at "
                 "boundary-1/boundary/boundary+1 of every candidate bound (from, until, from+each numeric protocol parameter of every "
